@@ -478,6 +478,9 @@ class Exec:
         # bind defaults for parameters not in the contract
         self._bind_defaults(node, st, mod)
         outs = self.exec_block(node.body, st, mod)
+        if os.environ.get("VERIF_DEBUG"):
+            for kind, s_, payload in outs:
+                print("DEBUG path-end", kind, payload if isinstance(payload, (str, int, type(None))) else type(payload).__name__, pathid(s_), "dead" if s_.dead else "")
         nret = 0
         for kind, s, payload in outs:
             if kind in ("next", "return"):
@@ -514,8 +517,10 @@ class Exec:
                     self.prove(s, f"{short(vname)}/raises/no-{exc}", z3.BoolVal(False), "raises", node.lineno)
             else:
                 raise VCError(f"{qual}: '{kind}' escapes the function body")
-        if nret == 0 and not c.raises and not c.exc_ensures:
-            raise VCError(f"{qual}: no normally terminating path (contradictory contract?)")
+        if nret == 0 and not c.options.get("no_normal_return"):
+            # every path ended in a declared exception or was pruned as infeasible (e.g. by a callee postcondition that contradicts the actual arguments):
+            # the postconditions would hold vacuously.  Functions that really never return say so (options no_normal_return).
+            raise VCError(f"{qual}: no normally terminating path (contradictory contract, or a callee contract that does not fit its call site?)")
         self.npaths += len(outs)
         for o in self.obls[n0:]:
             o.extra["vname"] = vname
@@ -1584,7 +1589,8 @@ class Exec:
             if isinstance(a, str) and isinstance(b, str):
                 return a == b
             if isinstance(a, Opaque) or isinstance(b, Opaque):
-                raise Unsupported("comparison with an opaque string")
+                # a string whose content the contract leaves open: either outcome is possible
+                return z3.Bool(uid("streq"))
             return False
         if isinstance(a, bool) and isinstance(b, bool):
             return a == b
@@ -1842,6 +1848,10 @@ class Exec:
                 if any(isinstance(d, ast.Name) and d.id == "staticmethod" for d in fn.decorator_list):
                     return FuncRef(q)
                 return BoundMethod(o, q)
+            # a method inherited from a class outside the repository (pygfunction bases): usable only through an (assumed) sidecar contract
+            ext = f"{o.cls}.{attr}"
+            if any(c.qual == ext for c in self.reg.contracts.values()):
+                return BoundMethod(o, ext)
             raise VCError(f"line {getattr(node, 'lineno', '?')}: object of class {o.cls} has no field/method {attr} (shape in the sidecar is incomplete)")
         if isinstance(o, Builtin):
             return Builtin(f"{o.name}.{attr}")
@@ -2010,7 +2020,11 @@ class Exec:
         kwargs = {}
         for k in node.keywords:
             if k.arg is None:
-                raise Unsupported("**kwargs")
+                d = self.eval(k.value, st, mod)  # f(**d) with a dict of literal string keys
+                if not isinstance(d, PyDict) or not all(isinstance(kk, str) for kk in d.d):
+                    raise Unsupported("**kwargs of a value that is not a dict with literal string keys")
+                kwargs.update(d.d)
+                continue
             kwargs[k.arg] = self.eval(k.value, st, mod)
         return self.call(f, args, kwargs, st, mod, node)
 
@@ -2152,8 +2166,20 @@ class Exec:
                 return v
         raise VCError(f"no contract variant of {qual} applies at this call site")
 
+    def _external_def(self, qual):
+        """signature of a function that exists only as an assumed contract (external base-class method): taken from the contract's parameter list"""
+        c = next(c for c in self.reg.contracts.values() if c.qual == qual)
+        src = "def f(" + ", ".join(c.params.keys()) + "): pass"
+        return self.prog.module(qual.split(":")[0]), ast.parse(src).body[0]
+
     def call_function(self, qual, args, kwargs, st, node):
-        fmod, fnode = self.prog.function(qual)
+        try:
+            fmod, fnode = self.prog.function(qual)
+        except KeyError:
+            if not any(c.qual == qual for c in self.reg.contracts.values()):
+                raise
+            self.used_models.add(f"external method {qual}: assumed contract only (no body in the repository)")
+            fmod, fnode = self._external_def(qual)
         c = self.contract_for(qual, fnode, fmod, args, kwargs, st)
         if c is None or c.inline:
             # no contract: only allowed for helpers explicitly registered as inline (contract with inline=True)
